@@ -17,12 +17,19 @@ _W_BRANCHES = ['w-trap.branch.cruise', 'w-trap.branch.accel-only', 'w-trap.branc
                'w-bell.branch.cruise', 'w-bell.branch.nocruise-amax', 'w-bell.branch.nocruise-reduced', 'w-bell.branch.decel-only',
                'w-bell.branch.accel-only']
 
+try:
+    _HAS_FMA = ' fma ' in open('/proc/cpuinfo').read()
+except OSError:
+    _HAS_FMA = False
+
 SPEC = dict(
     harness=['h_traj.c'],
     # the default (double) build runs the full harness; the other two real widths run a compact type-generic companion
     configs=lambda tier: [dict(name='f64'), dict(name='f32', real=4, harness=['h_traj_w.c']), dict(name='f80', real=16, harness=['h_traj_w.c']),
-                          dict(name='cxx', harness=['h_cxxw.c', 'h_cxxw_shim.cc'], hflags=['-DVF_CXXW=14'], nworkers=4)],
-    parallel_configs=4,
+                          dict(name='cxx', harness=['h_cxxw.c', 'h_cxxw_shim.cc'], hflags=['-DVF_CXXW=14'], nworkers=4)] +
+                         # ISA axis: with -mfma <math.h> defines FP_FAST_FMA*, which selects other arms of conditional code (only where the CPU has it)
+                         ([dict(name='f80-fma', real=16, harness=['h_traj_w.c'], cflags=['-mfma'], nworkers=3)] if _HAS_FMA else []),
+    parallel_configs=5,
     level='exploration',
     rule='requests are drawn at random (log-uniform limits 1e-3..1e3, distances 1e-6..1e6 in both directions, boundary velocities '
          '0 / +-vm / random / along or against the direction of travel) or solved to sit at a planning-branch condition '
